@@ -23,7 +23,8 @@ class C07(scen.WorldProp):
                 "Wheatley.C07.only_look_to_starts",
                 "Wheatley.C07.setting_keeps_stand",
                 "Wheatley.startNextRow_ctl",
-                "Wheatley.C07.cli_stop_at_rounds"]
+                "Wheatley.C07.cli_stop_at_rounds",
+                "Wheatley.C07.silent_until_look_to", "Wheatley.C07.nothing_before_the_first_look_to"]
     # the command line: what of the built configuration this property is about
     cli_fields = ['sar']
     level_text = ("theorems: That's all gives at most one more method row then rounds; Rounds returns to the opening "
